@@ -853,8 +853,10 @@ pub mod command_m {
 //@end
     }
     impl<T> Clone for Arc<T> {
+        // std Arc::clone: another handle to the same allocation
         #[verifier::external_body]
         fn clone(&self) -> (r: Self)
+            ensures r == *self,
         { unimplemented!() }
     }
 
@@ -958,6 +960,22 @@ pub mod command_m {
         a.c_events.is_prefix_of(b.c_events) && a.c_effects.is_prefix_of(b.c_effects)
     }
 
+//@extract id=cmd.AbortHandle file=crux_core/src/command/executor.rs item="struct AbortHandle"
+//@rule X2.vis * s/pub\(crate\)/pub/
+//@end
+
+    impl AbortHandle {
+//@extract id=AbortHandle::abort file=crux_core/src/command/executor.rs within="impl AbortHandle" item="fn abort" props=C06
+//@expect pub fn abort(&self)
+//@sig pub fn abort(&self, Tracked(w): Tracked<&mut World>)
+//@contract
+            requires
+                self.aborted.flag() is CommandAborted, // a handle made by Command::abort_handle (proved below)
+            ensures
+                *final(w) == (World { c_aborted: true, ..*old(w) }), // [C06/AbortHandle::abort/sets-exactly-the-commands-abort-flag]
+//@end
+    }
+
     impl<Effect, Event> CommandContext<Effect, Event> {
 //@extract id=CommandContext::send_event file=crux_core/src/command/context.rs within="impl<Effect, Event> CommandContext<Effect, Event>" item="fn send_event" props=C03
 //@expect pub fn send_event(&self, event: Event)
@@ -1013,6 +1031,16 @@ pub mod command_m {
 //@rule X14.enum-eq * s/\bresult == TaskState::(\w+)/matches!(result, TaskState::\1)/
 //@rule X1.ghost-verdict * s/return TaskState::(Completed|Cancelled);/return verdict(Tracked(w), task, TaskState::\1);/
 //@rule X1.ghost-verdict 1 s/\n(\s+)result\n(\s+)\}$/\n\1verdict(Tracked(w), task, result)\n\2}/
+//@end
+
+//@extract id=Command::abort_handle file=crux_core/src/command/mod.rs within="impl<Effect, Event> Command<Effect, Event>" item="fn abort_handle" props=C06
+//@expect pub fn abort_handle(&self) -> AbortHandle
+//@sig pub fn abort_handle(&self) -> (r: AbortHandle)
+//@contract
+            requires
+                self.wf(),
+            ensures
+                r.aborted.flag() is CommandAborted, // [C06/abort_handle/the-handle-shares-the-commands-own-abort-flag]
 //@end
 
 //@extract id=Command::was_aborted file=crux_core/src/command/executor.rs within="impl<Effect, Event> Command<Effect, Event>" item="fn was_aborted" props=C01+C06+C13
